@@ -113,7 +113,11 @@ func (r *Runner) packet(in *Input) (channeltypes.Packet, map[string]any) {
 	memo := w.memoOf(in)
 	var data []byte
 	if in.Dn == "RAWDATA" {
-		data = []byte(w.rawMemo(in.Raw))
+		if in.Mk == "RANDOM" {
+			data = []byte(memo)
+		} else {
+			data = []byte(w.rawMemo(in.Raw))
+		}
 	} else {
 		d := transfertypes.FungibleTokenPacketData{
 			Denom: denom, Amount: amount,
